@@ -159,12 +159,21 @@ func verifC10KeyOrderGrouped() {
 		}
 		return al.Key(), map[string]string(al.AsLokiAPI())
 	}
+	plain := func() (uint64, map[string]string) {
+		al := newAggregatedLabels(set, by, without)
+		return al.Key(), map[string]string(al.AsLokiAPI())
+	}
+	k0, l0 := plain()
 	vsymMapOrderAll()
 	k1, l1 := build()
 	k2, l2 := build()
 	vsymMapOrderDefault()
+	k3, l3 := plain()
 	vsymAssert(k1 == k2, "[maporder] the same label set and grouping always get the same grouping key")
 	vsymAssert(verifMapEq(l1, l2), "[maporder] the same label set and grouping always show the same labels")
+	// the grouping sets of the query are shared by all its samples: widening one
+	// sample's grouping must not change what another sample is
+	vsymAssert(k0 == k3 && verifMapEq(l0, l3), "regrouping one sample does not change the identity of another sample of the query")
 	vsymReach("C10_key_order_grouped")
 }
 
